@@ -161,7 +161,9 @@ def diagnosis_outcomes(env, text, prog):
 def classify_crash(prog, nat):
     """Stable feature of an abnormal exit, for the key."""
     err = nat["err"] or ""
-    sig = "SIGSEGV" if ("Segmentation fault" in err or nat["rc"] in (139, -11)) else \
+    # (under UBSan the null dereference that segfaults the plain build is reported as a member call on a null pointer)
+    sig = "SIGSEGV" if ("Segmentation fault" in err or nat["rc"] in (139, -11)
+                        or (nat["rc"] == 87 and "on null pointer" in err)) else \
         "abort" if nat["rc"] in (134, -6) else "asan" if nat["rc"] == 86 else "ubsan" if nat["rc"] == 87 else "rc%s" % nat["rc"]
     when = "after-deadlock-report" if nat["oops"] else "no-deadlock-report"
     feat = ""
@@ -288,7 +290,7 @@ def run(ctx):
             if not r["complete"]:
                 raise RuntimeError("directed program %s does not fit the reference bound" % name)
             progs.append((name, prog, prog.text(), _slim(r)))
-        n = ctx.size(quick=110, thorough=4000)
+        n = ctx.size(quick=80, thorough=3000)
         import multiprocessing as mp
         bound = 6000 if ctx.tier == "quick" else 40000
         jobs = [(ctx.sub_seed("g", i), bound, i % 4 != 0) for i in range(n)]
